@@ -1,6 +1,7 @@
 import Operon.Lemmas.C01
 import Operon.Lemmas.C01Work
 import Operon.Lemmas.C01Reach
+import Operon.Lemmas.C01VisitsReach
 import Operon.Lemmas.MitoBox
 import Operon.Gen.MitoFacts
 /-!
@@ -469,6 +470,14 @@ theorem c01_work_linear (T : Tables) (env : Env) (e : Expr) : (walk T env e).1.l
     nesting cannot make the work exponential in the depth. -/
 theorem c01_visits_linear (T : Tables) (env : Env) (e : Expr) : 1 ≤ visits T env e ∧ visits T env e ≤ e.nodes :=
   ⟨visits_pos T env e, visits_le T env e⟩
+
+/-- The count the harness measures on the real engine (`v=…`: entries of `_compute_node`) IS the number of nodes the
+    walker reaches: `visits = |reached|`, for every tree, every table content, every environment.  So `reached` — the
+    object `c01_errors_never_swallowed` / `c01_success_reaches_only_allowed_nodes` speak about — is tied to the code
+    through a quantity that is compared with the real engine on every `met` / `dg` line. -/
+theorem c01_visits_count_the_reached_nodes (T : Tables) (env : Env) (e : Expr) :
+    visits T env e = (reached T env e).length :=
+  visits_eq_reached T env e
 
 /-- The same at the entry point, for every pathway, configuration and input: one `metabolize` call enters the walker at
     most once per node of the parsed text (the logic pathway's `true`/`false` rewriting keeps the node count; the tool
